@@ -82,7 +82,7 @@ pub const BUILTINS: &[&str] = &[
     "all", "count", "then", ".", "apply", "const", "even", "odd", "abs", "group_all", "contains",
     "permutations", "combinations", "subsequences", "^^", "iterate", "lazy_map", "lazy_filter", "**",
     ".*", "*.", "..", "=>", "join", "<=>", "only", "index", "find", "locate", "uncons", "unsnoc",
-    "input", "read", "read_bytes", "interact", "interact_lines", "||+", "classify", "lazy_zip",
+    "input", "read", "read_bytes", "interact", "interact_lines", "||+", "classify", "lazy_zip", "/",
 ];
 
 pub const TYPES: &[(&str, fn() -> Ty)] = &[
@@ -103,11 +103,30 @@ pub const TYPES: &[(&str, fn() -> Ty)] = &[
     ("anything", || Ty::Any),
 ];
 
+thread_local! {
+    /// every scope created on this thread (weakly): a closure stored in a variable of the scope it
+    /// captures is an Rc cycle; `release_scopes` breaks them when a session or generator is done
+    static SCOPES: RefCell<Vec<std::rc::Weak<RefCell<Scope>>>> = RefCell::new(Vec::new());
+}
+
 pub fn new_scope(parent: Option<ScopeRef>) -> ScopeRef {
-    Rc::new(RefCell::new(Scope {
+    let s = Rc::new(RefCell::new(Scope {
         vars: Vec::new(),
         parent,
-    }))
+    }));
+    SCOPES.with(|v| v.borrow_mut().push(Rc::downgrade(&s)));
+    s
+}
+
+pub fn release_scopes() {
+    let scopes = SCOPES.with(|v| std::mem::take(&mut *v.borrow_mut()));
+    for w in scopes {
+        if let Some(s) = w.upgrade() {
+            if let Ok(mut b) = s.try_borrow_mut() {
+                b.vars.clear();
+            }
+        }
+    }
 }
 
 fn builtin(name: &str) -> V {
@@ -1858,14 +1877,36 @@ impl Model {
                         Some((first, rest)) => vec![first.clone(), V::List(rest.to_vec())],
                         None => return throw("value error: prepend destructured empty"),
                     },
-                    ("append", V::Str(_)) | ("+.", V::Str(_)) | (".+", V::Str(_)) => {
-                        return unknown("string destructure")
-                    }
-                    ("append", V::Vector(_)) | ("+.", V::Vector(_)) | (".+", V::Vector(_)) | ("append", V::Bytes(_))
-                    | ("+.", V::Bytes(_)) | (".+", V::Bytes(_)) | ("append", V::Dict(_)) | ("+.", V::Dict(_))
-                    | (".+", V::Dict(_)) | ("append", V::Stream(_)) | ("+.", V::Stream(_)) | (".+", V::Stream(_)) => {
-                        return unknown("non-list destructure")
-                    }
+                    ("append", V::Str(s)) | ("+.", V::Str(s)) => match s.chars().last() {
+                        Some(c) => vec![V::Str(s[..s.len() - c.len_utf8()].to_string()), V::Str(c.to_string())],
+                        None => return throw("value error: append destructured empty"),
+                    },
+                    (".+", V::Str(s)) => match s.chars().next() {
+                        Some(c) => vec![V::Str(c.to_string()), V::Str(s[c.len_utf8()..].to_string())],
+                        None => return throw("value error: prepend destructured empty"),
+                    },
+                    ("append", V::Vector(xs)) | ("+.", V::Vector(xs)) => match xs.split_last() {
+                        Some((last, rest)) => vec![V::Vector(rest.to_vec()), last.clone()],
+                        None => return throw("value error: append destructured empty"),
+                    },
+                    (".+", V::Vector(xs)) => match xs.split_first() {
+                        Some((first, rest)) => vec![first.clone(), V::Vector(rest.to_vec())],
+                        None => return throw("value error: prepend destructured empty"),
+                    },
+                    ("append", V::Bytes(xs)) | ("+.", V::Bytes(xs)) => match xs.split_last() {
+                        Some((last, rest)) => vec![V::Bytes(rest.to_vec()), vint(*last as i64)],
+                        None => return throw("value error: append destructured empty"),
+                    },
+                    (".+", V::Bytes(xs)) => match xs.split_first() {
+                        Some((first, rest)) => vec![vint(*first as i64), V::Bytes(rest.to_vec())],
+                        None => return throw("value error: prepend destructured empty"),
+                    },
+                    ("append", V::Dict(_)) | ("+.", V::Dict(_)) | (".+", V::Dict(_)) | ("append", V::Stream(_))
+                    | ("+.", V::Stream(_)) | (".+", V::Stream(_)) => return unknown("non-list destructure"),
+                    // a / b: numerator and denominator of an exact number
+                    ("/", V::Int(n)) => vec![V::Int(n.clone()), vint(1)],
+                    ("/", V::Rat(r)) => vec![V::Int(r.numer().clone()), V::Int(r.denom().clone())],
+                    ("/", _) => return throw("value error: / destructured non-rational"),
                     ("append", _) | ("+.", _) | (".+", _) => return throw("type error: destructured non-seq"),
                     ("+", V::Int(r)) => {
                         if args.len() != 2 {
